@@ -145,7 +145,7 @@ class SPSave(FSContract):
 
 class SPLoad(FSContract):
     target = f"{JOB}._StatePointDict.load"
-    properties = ("C01", "C02", "C09", "C11")
+    properties = ("C01", "C02", "C03", "C04", "C09", "C11")
     faults = True
 
     def setup(self, interp, case):
